@@ -312,3 +312,57 @@ reg(
                 "safety/inversion claims over strings."),
     level_note="The scanners and the reference url decoder are trusted.",
 )
+
+reg(
+    "C05",
+    title="loops visit exactly the selected elements",
+    level="exploration",
+    technique="runtime monitoring against a reference interpreter over generator ASTs: exhaustive (length x offset x limit x reversed x cols x collection kind) windows with bodies printing the item and every forloop/tablerow field, break/continue at every index of two nested loops, random deeper nests",
+    design_ref="DESIGN.md §5 C05",
+    rule=("cases: (1) every collection length 0..6 x offset in {absent, 0..8} x limit in {absent, 0..8} (as literals and through variables) x reversed x {for, tablerow with cols absent/1..4} x collection kind "
+          "{array variable, literal range, range with variable bounds, descending range, single-key object, nil}, body prints the item and all loop fields, else branch marked; (2) break/continue guarded by forloop.index == k for "
+          "every k at both levels of two nested loops of lengths 0..4, before and after the inner loop, with parentloop fields printed and a leak probe after the loop; (3) random nests to depth 3 over arrays up to 40 elements. "
+          "The expected output comes from the reference interpreter. distinct = distinct (program text, data); non-trivial = the source collection is non-empty."),
+    exhaustive=True,
+    profiles={"quick": ["checked"], "thorough": ["checked", "release"]},
+    floor={"quick": 60000, "thorough": 1000000},
+    assumptions=["tablerow markup is compared after deleting newlines (the statement promises truthful fields, not exact markup)", "break/continue inside tablerow and negative limit/offset are outside the statement and not generated"],
+    level_text=("Exhaustive over the quantified window space with an independent interpreter as oracle. Right level: the property is about all (length, offset, limit) combinations and all interrupt positions; "
+                "the suite fixes a handful."),
+    level_note="The reference interpreter (harness/src/refm.rs) is trusted; its loop semantics are 15 lines (window = a[min(off,n)..min(off+lim,n)], then reverse).",
+)
+
+reg(
+    "C15",
+    title="arithmetic filters are exact or fail",
+    level="exploration",
+    technique="runtime monitoring with an offline checker: the harness only records {op, operands, result} events (checked and release builds); a Python checker with big-integer, Fraction and IEEE-double arithmetic judges them",
+    design_ref="DESIGN.md §5 C15",
+    rule=("a case = (filter, operand a, operand b or none) over the eleven math filters. All 18x18 pairs of the boundary set as integers, decimal strings and nearest floats; all 81x81 pairs of k/8, |k| <= 40; 34 special doubles; "
+          "34 free strings; twelve random families (full 64-bit ints, sums/products next to +-2^63, division by special divisors, random f64 bit patterns, n+0.5 ties +-1 ulp, int/float/string mixes). divided_by events carry the modulo result of "
+          "the same operands so the identity n = q*d + r is checked on one observation. distinct = distinct (op, a, b); non-trivial = every operand is a number or a string the coercion parses as a number."),
+    offline="c15_arith",
+    profiles={"quick": ["checked"], "thorough": ["checked", "release"]},
+    floor={"quick": 100000, "thorough": 5000000},
+    assumptions=["float modulo may follow fmod, floored or IEEE-remainder convention; float division by zero may be an error or the IEEE result", "ceil/floor/round are asserted for floats within the i64 range only; integer operands and round with decimal places are counted, not asserted"],
+    level_text=("Boundary-exhaustive and random operands judged by an independent arithmetic (Python big integers / Fractions / IEEE doubles). Right level: wrap-around and tie errors live at boundaries the suite never multiplies; "
+                "the release build is needed to observe wrapping, the checked build to observe overflow panics."),
+    level_note="The offline checker (checkers/c15_arith.py) is trusted.",
+)
+
+reg(
+    "C17",
+    title="dates: round trips and strftime directives",
+    level="exploration",
+    technique="runtime monitoring with an offline checker: the harness records format, round-trip and comparison events; a Python checker with an independent calendar (datetime + integer arithmetic) rebuilds the expected strftime text segment by segment",
+    design_ref="DESIGN.md §5 C17",
+    rule=("cases: format = (timestamp, value-or-string input, format) through {{ ts | date: fmt }}; round trip = input text in one of the 7 accepted syntaxes; comparison = (a, b) via Value or template. Timestamps: years 1, 1000, 1970..2040, 9999 x 20 boundary days x every hour; "
+          "range ends x 42 offsets (-12:00..+14:00 incl. :30/:45) x 10 sub-second values; every directive x flag {none,-,_,0,^,#} x width {none,1,3,6,12}; ~190 special formats (unknown ASCII/non-ASCII directives, malformed, trailing %); random concatenations. "
+          "distinct by content; non-trivial: the format contains a '%' / any round trip / comparison operands in different offsets."),
+    offline="c17_dates",
+    profiles={"quick": ["checked"], "thorough": ["checked"]},
+    floor={"quick": 80000, "thorough": 1500000},
+    assumptions=["exact comparison only on the sub-domain where the documented (Ruby) meaning is unambiguous; flags/widths on composites, on %z, '#'/'^' on numerics etc. are totality-only and counted per reason", "widths above 1000 are not generated"],
+    level_text=("Dense enumeration of calendar edge cases and directive/flag/width combinations judged by an independent calendar. Right level: the defects are at leap days, ISO-week-year edges and leading-zero fractions, which example tests miss."),
+    level_note="The offline checker (checkers/c17_dates.py) is trusted; it self-checks its calendar against Python's datetime at import.",
+)
